@@ -67,8 +67,11 @@ def fixed_form(s):
 
 
 # ---------------------------------------------------------------------------
-# operations.  Each returns dict(outcome=str, grids=[(tag, grid)], args=fn(m)->jsonable,
-#                                klass=fn(m)->str)
+# operations.  Each creates its symbolic arguments and returns
+#   dict(run=callable doing the ONE real edit, klass=fn(model, group)->input-class string,
+#        args=fn(model)->jsonable concrete arguments for the replay,
+#        [grids=callable->[(tag, grid)] if the grid to check is not the pre-state object],
+#        [extra=callable->[(group, label, value)] additional obligations], [outcome=callable->str])
 
 def op_add_block(c, T, p, o):
     q = G.mkname(c, 'q', o['alpha']); qv = c.real('qv')
@@ -231,6 +234,10 @@ def op_t2data_rename_blocks(c, T, p, o):
     if p.bnames:
         dat.add_generator(D.t2generator(name='gen 1', block=p.bnames[0]))
     keys, vals, bm = _rename_map(c, p, o, p.bnames)
+    if o.get('invert'):
+        # the preconditions are stated on the map that is APPLIED (keys -> vals); hand over its inverse
+        bm = {}
+        for k, v in zip(keys, vals): bm[v] = k
     nlist = len(p.g.blocklist)
     def extra():
         return [('blocks', 'renaming loses no block: len(block) == len(blocklist) == %d' % nlist,
@@ -335,7 +342,7 @@ def task_step(op, sh, opt, max_paths=6000):
     ld = _load()
     T = ld.t2grids
     failures, samples, distinct = [], [], set()
-    reached = [0]; vacuous = []
+    reached = [0]; vacuous = []; perkey = {}
     o = dict(opt); o.setdefault('alpha', 'lower')
 
     def h(c):
@@ -373,6 +380,9 @@ def task_step(op, sh, opt, max_paths=6000):
                 m = c.failures[-1]['model']
                 kl = info['klass'](m, group)
                 if raised: kl += ',raised'
+                kk = '%s/%s/%s' % (op, kl, group)
+                perkey[kk] = perkey.get(kk, 0) + 1
+                if perkey[kk] > 2: continue          # two witnesses per key and task are enough for the replay
                 failures.append(dict(
                     key='%s/%s/%s' % (op, kl, group),
                     what='%s [%s] on %s: after the edit NOT(%s)%s' % (op, kl, G.shape_id(sh), label,
@@ -381,7 +391,8 @@ def task_step(op, sh, opt, max_paths=6000):
                                 args=info['args'](m), group=group, label=label)))
         return outcome
 
-    res = sym.explore(h, G.FastCtx(timeout_ms=30000), max_paths=max_paths)
+    # the sys.setprofile pass that records which repo functions ran is slow: one task per operation does it
+    res = sym.explore(h, G.FastCtx(timeout_ms=30000), max_paths=max_paths, profile_repo=bool(o.get('profile')))
     tr = report.summarize('%s/%s/%s' % (op, G.shape_id(sh), _opt_id(opt)), res, failures, samples,
                           extra=dict(distinct_obligations=len(distinct), reached=reached[0]))
     if not reached[0]:
@@ -433,8 +444,11 @@ def catalogue(tier):
     def add(op, sh, **opt): tasks.append((task_step, dict(op=op, sh=sh, opt=opt)))
     A = 'alnumsp'
     sizes = [0, 1, 2, 3] if tier == 'quick' else [0, 1, 2, 3, 4]
+    seen_nk = set()
     for nb in sizes:
-        if nb <= 3: topos = topo(nb, 'oriented')
+        if nb <= 2 or (nb == 3 and tier != 'quick'): topos = topo(nb, 'oriented')
+        elif nb == 3:     # quick: every subset once + all-forward / all-reversed triangle + a doubled pair
+            topos = topo(3, 'subsets') + [[(0, 1), (1, 2), (0, 2)], [(1, 0), (2, 1), (2, 0)], [(1, 2), (0, 1), (2, 1)]]
         else: topos = topo(nb, 'subsets')
         for cons in topos:
             sh = G.shape(nb, cons, nr=2, brock=[(i + 1) % 2 if i < 3 else 0 for i in range(nb)])
@@ -449,12 +463,18 @@ def catalogue(tier):
             # reorder: every block permutation (quick: <=3 blocks) / every reversal subset
             k = len(cons)
             if nb <= 3 or len(cons) <= 2:
+                full = nb <= 3 or (nb, k) not in seen_nk      # first 4-block shape with 0, 1, 2 connections
+                seen_nk.add((nb, k))
                 for perm in itertools.permutations(range(nb)):
+                    if not full and list(perm) not in ([3, 2, 1, 0], [1, 2, 3, 0], [1, 0, 2, 3]): continue
                     if nb and list(perm) != list(range(nb)) or nb <= 1:
                         add('reorder', sh, perm=list(perm), cons=None)
             if k:
                 cset = set(tuple(x) for x in cons)
-                for flips in itertools.product((0, 1), repeat=k):
+                allflips = list(itertools.product((0, 1), repeat=k))
+                if k > 4:      # 5 or 6 connections: none, all, each single one, alternating
+                    allflips = [f for f in allflips if sum(f) in (0, 1, k) or f == tuple(q % 2 for q in range(k))]
+                for flips in allflips:
                     # "listed reversed" has no meaning for a pair whose reverse is itself a connection
                     if any(f and (cons[q][1], cons[q][0]) in cset for q, f in enumerate(flips)): continue
                     order = list(range(k))[1:] + [0]
@@ -477,6 +497,7 @@ def catalogue(tier):
     for nb, cons in ((2, [(0, 1)]), (3, [(0, 1), (2, 1)])) + (() if tier == 'quick' else ((4, [(0, 1), (2, 1), (2, 3)]), (3, [(0, 1), (1, 2), (0, 2)]))):
         for m_ in (1, 2):
             add('t2data_rename_blocks', G.shape(nb, cons, nr=1), alpha='lower', m=m_, fix=True)
+    add('t2data_rename_blocks', G.shape(3, [(1, 0), (1, 2)], nr=1), alpha='lower', m=2, fix=False, invert=True)
     # rock types: every assignment
     for nb in ([0, 1, 2, 3] if tier == 'quick' else [0, 1, 2, 3, 4]):
         for nr in (0, 1, 2):
@@ -499,11 +520,12 @@ def catalogue(tier):
     for nb, cons in ((1, []), (2, [(0, 1)]), (2, [])) + (() if tier == 'quick' else ((3, [(0, 1), (2, 1)]), (3, [(0, 1), (1, 2), (0, 2)]))):
         for fr, sp, nfp in mincs:
             sh = G.shape(nb, cons, nr=2, brock=[i % 2 for i in range(nb)])
-            add('minc', sh, alpha=A, fractions=fr, spacing=sp, nfp=nfp, blocks=None)
+            if nb < 3 or len(fr) == 2 or len(cons) == 2:     # 3 levels on 3 blocks: one topology (hundreds of aliasing paths)
+                add('minc', sh, alpha=A, fractions=fr, spacing=sp, nfp=nfp, blocks=None)
             if nb >= 2:
                 add('minc', sh, alpha=A, fractions=fr, spacing=sp, nfp=nfp, blocks=[nb - 1])
     if tier != 'quick':
-        add('minc', G.shape(4, [(0, 1), (2, 1), (2, 3)], nr=2), alpha=A, fractions=[0.2, 0.8], spacing=50., nfp=3, blocks=None)
+        add('minc', G.shape(4, [(0, 1), (2, 1), (2, 3)], nr=2), alpha=A, fractions=[0.2, 0.8], spacing=50., nfp=3, blocks=[0, 2, 3])
         add('minc', G.shape(2, [(0, 1)], nr=1), alpha=A, fractions=[0.05, 0.1, 0.15, 0.2, 0.2, 0.3], spacing=50., nfp=3, blocks=None)
     add('minc', G.shape(2, [(1, 0)], nr=1), alpha=A, fractions=[0.2, 0.8], spacing=50., nfp=1, blocks=[0, 1], as_objects=True)
     # grids built from geometries (concrete names, symbolic spacings), optionally reordered with reversals
@@ -520,7 +542,28 @@ def catalogue(tier):
             if tier == 'quick' and sh['nb'] + other['nb'] > 3: continue
             add('add', sh, alpha=A, other=other)
             add('embed', sh, alpha=A, other=other, host=sh['nb'] - 1, sub=0)
+    return schedule(mark_profiled(tasks))
+
+
+def mark_profiled(tasks):
+    seen = set()
+    for f, kw in tasks:
+        if kw['op'] not in seen and kw['sh']['nb'] >= 2 or kw['op'] == 'fromgeo' and kw['op'] not in seen:
+            seen.add(kw['op']); kw['opt']['profile'] = True
     return tasks
+
+
+def schedule(tasks):
+    """longest tasks first (the pool takes tasks in list order; avoids one long
+    task running alone at the end).  Stable, so a seed-shuffled order survives among equals."""
+    def weight(t):
+        kw = t[1]; o = kw['opt']; nb = kw['sh']['nb']
+        if o.get('fix_precondition'): return 4 ** (2 * o['m'])
+        if kw['op'] == 'minc': return 3 ** nb * len(o['fractions'])
+        if kw['op'] in ('rename_blocks', 't2data_rename_blocks'): return (nb + 1) ** o['m'] / 2.0
+        if kw['op'] in ('add', 'embed'): return nb * 3
+        return 1
+    return sorted(tasks, key=lambda t: -weight(t))
 
 
 def run(tier, seed, rep):
@@ -534,18 +577,28 @@ def run(tier, seed, rep):
     if seed:
         import random
         random.Random(seed).shuffle(tasks)
+        tasks = schedule(tasks)
     rep.add_results(report.run_tasks(tasks))
     nreached = sum(r.get('extra', {}).get('reached', 0) for r in rep.results)
     rep.extra['paths_reaching_obligations'] = nreached
+    per_op = {}
+    for r in rep.results:
+        a = per_op.setdefault(r['name'].split('/')[0], dict(tasks=0, paths=0, obligations=0, wall_s=0.0))
+        a['tasks'] += 1; a['paths'] += r.get('stats', {}).get('paths', 0)
+        a['obligations'] += r.get('stats', {}).get('obligations', 0); a['wall_s'] = round(a['wall_s'] + r.get('wall_s', 0), 1)
+    rep.extra['per_operation'] = per_op
     rep.bounds += [
         'pre-states: %s blocks, <=2 registered rock types, connections = every subset of the block pairs '
-        '(<=3 blocks: every orientation of every subset plus two shapes holding both orientations of a pair; '
-        '4 blocks: every subset with a fixed alternating orientation and rotated list order)' % ('<=3' if tier == 'quick' else '<=4'),
+        '(%s: every orientation of every subset plus shapes holding both orientations of a pair; %s'
+        'every subset with a fixed alternating orientation and rotated list order)' % (
+            ('<=3', '<=2 blocks', '3 blocks: ') if tier == 'quick' else ('<=4', '<=3 blocks', '4 blocks: ')),
         'block / rock-type names: 5 symbolic characters over [a-zA-Z0-9 ] (rename_blocks tasks: [a-z]; '
         'fix_blocknames with digits and blanks only on <=2 blocks, maps of <=%d entries)' % (1 if tier == 'quick' else 2),
         'one edit per pre-state with free symbolic name arguments; rename maps of 1, 2 and 3 entries '
-        '(3 entries: %s)' % ('three 3-block topologies' if tier == 'quick' else 'all 3-block connection subsets and one 4-block graph per isomorphism class'),
-        'reorder: every block permutation (<=3 blocks, and 4 blocks with <=2 connections), every subset of connections listed reversed',
+        '(1 and 2 entries: every shape; 3 entries: %s)' % (
+            'three 3-block topologies' if tier == 'quick' else
+            'all 3-block connection subsets and one 4-block graph per isomorphism class'),
+        'reorder: every block permutation (<=3 blocks, and 4 blocks on three shapes with 0..2 connections; reverse / rotation / one transposition on the other 4-block shapes with <=2 connections), every subset of connections listed reversed (grids with 5 or 6 connections: none / all / each single one / alternating)',
         'MINC with concrete fraction lists [0.2,0.8], [0.1,0.3,0.6] (thorough also 6 fractions), 1..3 fracture-plane sets, whole grid or one block',
         '__add__/embed with a second symbolic grid of 1..2 blocks whose names may alias the first grid\'s',
         'block volumes: any real (symbolic)',
